@@ -300,6 +300,21 @@ func genC19(c *Cfg, emit func([]string)) {
 			nHuge++
 		}
 	}
-	c.Rule = fmt.Sprintf("%d random histories: fee settings (share in {0,1,0.5%%,2.5%%,33.3%%,100%%,100%%+1}, floor, cap incl. 0 and cap<floor, own/foreign/unknown currency, rates, limits), user ids (same/different/none), funding {5,1000,1e5,1e12,2^128}, then 3..8 operations (transfer/buy/buyBack/predictFee) with amounts around every break point floor*1e8/share±1, cap*1e8/share±1, balance±1, 0; all balances (token, allowed USD/EUR) of 6 addresses dumped after every operation; non-trivial = contains a transfer/buy; distinct = sha256 of op+output; plus %d histories of huge deals (amounts 2^32..1e30 x rates incl. 2^64: every product beyond 64 bits) with richly funded parties", nHist, nHuge)
+	// limits: every combination of a lower and an upper bound (0 = none) with amounts at bound-1, bound, bound+1
+	nLim := 0
+	for _, lim := range [][2]string{{"100", "0"}, {"0", "50"}, {"100", "200"}, {"0", "0"}, {"1", "1"}, {"100", "100"}} {
+		for _, rate := range []string{"100000000", "250000000"} {
+			h := []string{"reset", "setrate buyToken USD " + rate, "setrate buyBack USD " + rate,
+				"setlimits buyToken USD " + lim[0] + " " + lim[1], "setlimits buyBack USD " + lim[0] + " " + lim[1],
+				"fund I 100000", "fund u0 100000", "fundalw u0 USD 100000000", "fundalw I USD 100000000", "bal"}
+			for _, a := range []string{"0", "1", "2", "49", "50", "51", "99", "100", "101", "199", "200", "201", "1000"} {
+				h = append(h, "buy u0 "+a+" USD", "buyback u0 "+a+" USD")
+			}
+			h = append(h, "bal")
+			emit(h)
+			nLim++
+		}
+	}
+	c.Rule = fmt.Sprintf("%d random histories: fee settings (share in {0,1,0.5%%,2.5%%,33.3%%,100%%,100%%+1}, floor, cap incl. 0 and cap<floor, own/foreign/unknown currency, rates, limits), user ids (same/different/none), funding {5,1000,1e5,1e12,2^128}, then 3..8 operations (transfer/buy/buyBack/predictFee) with amounts around every break point floor*1e8/share±1, cap*1e8/share±1, balance±1, 0; all balances (token, allowed USD/EUR) of 6 addresses dumped after every operation; non-trivial = contains a transfer/buy; distinct = sha256 of op+output; plus %d histories of huge deals (amounts 2^32..1e30 x rates incl. 2^64: every product beyond 64 bits) with richly funded parties; plus %d histories walking amounts across every combination of a lower and an upper limit (0 = none)", nHist, nHuge, nLim)
 	c.Extra = map[string]any{"histories": nHist}
 }
